@@ -17,6 +17,7 @@ ROOT = os.path.dirname(os.path.dirname(os.path.abspath(__file__)))
 sys.path.insert(0, ROOT)
 
 LEVELS = {'C11': 'fault_enumeration', 'C12': 'fault_enumeration'}
+QUICK_FACTOR = {'sim': 3, 'pure': 2, 'real': 2, ('C18', 'F2_socket_end_to_end'): 1, ('C18', 'F3_named_pipe'): 1, ('C02', 'F1_server'): 2, ('C14', 'F1_call_histories'): 4, ('C20', 'F1_log_forwarding'): 3}
 
 
 def derive_seed(base, *parts):
@@ -90,6 +91,10 @@ def main(argv):
         scale = float(os.environ.get('VERIF_SCALE', '1'))
         for fam in fams:
             total = fam.quick if tier == 'quick' else fam.thorough
+            if tier == 'quick':
+                # the per-family quick counts in props/ are the calibration unit (5-20 s per check); the registered quick tier runs
+                # a multiple of it so that a check takes roughly 30-90 s on 16 cores
+                total = total * QUICK_FACTOR.get((prop, fam.name), QUICK_FACTOR.get(fam.engine, 1))
             total = max(1, int(total * scale))
             nsh = fam.shards_quick if tier == 'quick' else fam.shards_thorough
             nsh = max(1, min(nsh, total))
